@@ -47,6 +47,9 @@ type pool struct {
 	Vlan        int      `json:"vlan,omitempty"`
 	plen        int
 	all         []uint32
+	network     uint32
+	gwOff       uint32
+	nextOff     uint32 // first host offset after this pool's ranges (a later pool may share the subnet)
 }
 
 func u32(ip uint32) string { return fmt.Sprintf("%d.%d.%d.%d", byte(ip>>24), byte(ip>>16), byte(ip>>8), byte(ip)) }
@@ -57,26 +60,35 @@ func genPools(c *core.Choices) []*pool {
 	n := 1 + c.Choose(4)
 	for i := 0; i < n; i++ {
 		p := &pool{NodeSubnets: []string{"10.1.0.0/24"}}
-		p.plen = 16 + c.Choose(15)
-		size := uint32(1) << uint(32-p.plen)
-		base := uint32(10)<<24 | uint32(100+i)<<16 | uint32(c.Choose(256))<<8 | uint32(c.Choose(256))
-		network := base &^ (size - 1)
-		p.Subnet = fmt.Sprintf("%s/%d", u32(network), p.plen)
-		// the gateway is any host of the subnet; the pool's ranges avoid it
-		gwOff := uint32(1)
-		if size > 4 && c.Prob(1, 2) {
-			gwOff = size - 2
+		var size, network, gwOff, off uint32
+		if prev := lastPool(out); prev != nil && c.Prob(1, 4) {
+			// a pool that shares the previous pool's pod subnet and gateway (disjoint ranges) but is its own pool: own
+			// VLAN, own ranges
+			p.plen, network, gwOff, off = prev.plen, prev.network, prev.gwOff, prev.nextOff
+			size = uint32(1) << uint(32-p.plen)
+		} else {
+			p.plen = 16 + c.Choose(15)
+			size = uint32(1) << uint(32-p.plen)
+			base := uint32(10)<<24 | uint32(100+i)<<16 | uint32(c.Choose(256))<<8 | uint32(c.Choose(256))
+			network = base &^ (size - 1)
+			// the gateway is any host of the subnet; the pool's ranges avoid it
+			gwOff = uint32(1)
+			if size > 4 && c.Prob(1, 2) {
+				gwOff = size - 2
+			}
+			off = uint32(1)
+			if gwOff == 1 {
+				off = 2
+			}
+			if size > 64 {
+				off += uint32(c.Choose(int(size/2) - 8))
+			}
 		}
+		p.network, p.gwOff = network, gwOff
+		p.Subnet = fmt.Sprintf("%s/%d", u32(network), p.plen)
 		p.Gateway = u32(network + gwOff)
 		p.Vlan = []int{0, 0, 1, 2, 100, 4094, c.Choose(4095)}[c.Choose(7)]
 		// 1-2 ranges of 1-3 addresses with a gap between them
-		off := uint32(1)
-		if gwOff == 1 {
-			off = 2
-		}
-		if size > 64 {
-			off += uint32(c.Choose(int(size/2) - 8))
-		}
 		nr := 1 + c.Choose(2)
 		for j := 0; j < nr; j++ {
 			ln := uint32(1 + c.Choose(3))
@@ -93,12 +105,20 @@ func genPools(c *core.Choices) []*pool {
 			}
 			off += ln + 1
 		}
+		p.nextOff = off
 		if len(p.all) == 0 {
 			continue
 		}
 		out = append(out, p)
 	}
 	return out
+}
+
+func lastPool(l []*pool) *pool {
+	if len(l) == 0 {
+		return nil
+	}
+	return l[len(l)-1]
 }
 
 type instance struct {
@@ -168,10 +188,24 @@ type world struct {
 	done    bool
 	result  string // "", "bound", "unschedulable: ...", "bind error: ..."
 	podJSON, nodesJSON []byte
+	// second-attempt histories: the pods/binding call of the first attempt fails after the IPs were allocated and
+	// persisted; before the scheduler retries, galaxy-ipam may be restarted (tables rebuilt from the stored objects) on
+	// a configuration that lists the same pools in another order
+	failFirstBind bool
+	restart       bool
+	reorderConf   []byte // configmap JSON to install before the restart (nil = unchanged)
+	bindFailed    bool
+	restarted     bool
+	attempts      int
 }
 
 func (w *world) Handle(t *core.Task, r *core.Req) core.Resp {
 	switch {
+	case r.Op == "api.bind" && w.failFirstBind && w.attempts == 1:
+		// every pods/binding call of the first attempt fails (Bind retries the call for a while before it gives up)
+		w.bindFailed = true
+		w.S.Logf("fault: pods/binding call of the first attempt fails")
+		return core.Resp{Code: simkube.CodeInternal, Msg: "simulated internal error"}
 	case simkube.IsAPI(r.Op), strings.HasPrefix(r.Op, "view."):
 		return w.K.Handle(t, r)
 	case r.Op == "w.ready":
@@ -185,6 +219,13 @@ func (w *world) Handle(t *core.Task, r *core.Req) core.Resp {
 		w.result, w.done = "bound", true
 		if r.A[0] != "" {
 			w.result = "bind error: " + r.A[0]
+			if w.bindFailed && w.attempts == 1 {
+				// the scheduler will retry; meanwhile galaxy-ipam may restart
+				w.done, w.started = false, false
+				if w.restart {
+					w.ready = false
+				}
+			}
 		}
 	default:
 		return core.Resp{Code: 400, Msg: "unknown op " + r.Op}
@@ -193,9 +234,29 @@ func (w *world) Handle(t *core.Task, r *core.Req) core.Resp {
 }
 
 func (w *world) Actions() []core.Action {
+	if !w.ready && w.attempts == 1 && w.restart && !w.done {
+		return []core.Action{{Name: "restart", Do: func() {
+			w.restart = false
+			n := w.S.Kill(w.proc)
+			w.restarted = true
+			w.S.Logf("restart: killed %d tasks of galaxy-ipam", n)
+			if w.reorderConf != nil {
+				if _, code, msg := w.K.Update(nil, "configmaps", w.reorderConf); code != 0 {
+					w.S.Infra = "configmap update: " + msg
+				}
+			}
+			w.K.ResetViews()
+			w.proc = w.S.NewProc()
+			w.inst = &instance{}
+			inst := w.inst
+			it := w.S.Spawn("init2", w.proc, func() { startInstance(inst) })
+			it.Tag = "init"
+		}}}
+	}
 	if w.ready && !w.started {
 		return []core.Action{{Name: "schedule", Do: func() {
 			w.started = true
+			w.attempts++
 			inst, pj, nj := w.inst, w.podJSON, w.nodesJSON
 			t := w.S.Spawn("sched", w.proc, func() { schedTask(inst, pj, nj) })
 			t.Tag = "sched"
@@ -212,7 +273,7 @@ func (w *world) Idle() bool {
 		w.S.AdvanceTo(ts)
 		return true
 	}
-	if !w.ready || w.started {
+	if (!w.ready && !w.restart) || w.started {
 		w.S.Infra = "phase (a) cannot make progress"
 	}
 	return false
@@ -317,6 +378,20 @@ func run(prop, tier string, c *core.Choices, trace bool) *harness.RunResult {
 		s.Logf("pools: %s", cfgJSON)
 		s.Logf("pod %s/%s request_ip_range=%v", ns, name, lists)
 	}
+	if c.Prob(1, 2) {
+		w.failFirstBind = true
+		w.restart = c.Prob(2, 3)
+		if w.restart && len(pools) > 1 && c.Prob(1, 2) {
+			rev := make([]*pool, len(pools))
+			for i := range pools {
+				rev[len(pools)-1-i] = pools[i]
+			}
+			rj, _ := json.Marshal(rev)
+			cmj, _ := json.Marshal(corev1.ConfigMap{TypeMeta: metav1.TypeMeta{Kind: "ConfigMap", APIVersion: "v1"},
+				ObjectMeta: metav1.ObjectMeta{Name: "floatingip-config", Namespace: "kube-system"}, Data: map[string]string{"floatingips": string(rj)}})
+			w.reorderConf = cmj
+		}
+	}
 	w.proc = s.NewProc()
 	w.inst = &instance{}
 	inst := w.inst
@@ -366,6 +441,15 @@ func run(prop, tier string, c *core.Choices, trace bool) *harness.RunResult {
 	res.Nontrivial = true
 	res.Sig = fmt.Sprintf("%s|%v", cfgJSON, lists) // distinct generated configurations and requests
 	res.Stats["c13.bound-pods"]++
+	if w.bindFailed {
+		res.Stats["c13.bound-at-second-attempt"]++
+		if w.restarted {
+			res.Stats["c13.restart-between-attempts"]++
+			if w.reorderConf != nil {
+				res.Stats["c13.pools-reordered-at-restart"]++
+			}
+		}
+	}
 	res.Stats["c13.ips"] += len(stored)
 	res.Stats[fmt.Sprintf("c13.ips-per-pod-%d", len(stored))]++
 	fail := func(key, format string, a ...interface{}) {
